@@ -49,6 +49,13 @@ def run(tier, seed):
     small = {"k": "bin", "b": [7, 7, 7]}
     for proto in [o for o in ops if o["op"] == "send"][:1] + [o for o in ops if o["op"] == "send_to_name"][:1]:
         ops.append({**proto, "c": small, "payload": [small], "inflate": BIG})
+    # around what a distribution header can list (255 atoms): payloads naming 245 .. 260 distinct atoms next to those of the control message.
+    # Such a send may be refused (the library does not fall back to atoms written in place) -- then nothing may reach the wire --
+    # or it is written, and then it must be readable like any other.
+    for proto in [o for o in ops if o["op"] == "send"][:1] + [o for o in ops if o["op"] == "send_to_name"][:1]:
+        for n in range(245, 261):
+            lst = {"k": "list", "e": [{"k": "atom", "b": [97 + (i % 26), 48 + (i % 10), 65 + (i // 26)]} for i in range(n)], "t": {"k": "nil"}}
+            ops.append({**proto, "c": lst, "payload": [lst], "may_fail": True})
     for i, o in enumerate(ops):
         o["id"] = i
     lib.write_ndjson(op_path, ops)
@@ -114,6 +121,10 @@ def run(tier, seed):
                 v.violation("an operation before the handshake completed did not fail", case)
             continue
         if not o["result_ok"]:
+            if op.get("may_fail"):
+                if by_obs.get(j) or o["frames"]:
+                    v.violation("an operation that reported failure wrote to the wire", {**case, "err": o.get("err"), "frames": len(o["frames"])})
+                continue
             v.violation("a send-side operation failed on a connected connection", {**case, "err": o.get("err")})
             continue
         frames = by_obs.get(j, [])
